@@ -60,37 +60,19 @@ theorem overlap_of_beside (g : Gene) (pad x y : Int) (hpad : 0 ≤ pad) (h : Bes
 
 /-- `find_intergenic_areas`: every area shares at most `pad` bases with every gene -/
 theorem findIntergenic_overlap (start «end» minLen pad : Int) (genes : List Gene) (hpad : 0 ≤ pad)
-    (hsorted : sortedByStart genes) (a : Int × Int)
+    (a : Int × Int)
     (ha : a ∈ findIntergenic start «end» genes minLen pad) (g : Gene) (hg : g ∈ genes)
     (x y : Int) (hx : a.1 ≤ x) (hy : y ≤ a.2) : overlapSize g x y ≤ pad := by
   unfold findIntergenic at ha
   have hm := (List.mem_filter.1 ha).1
-  have hb := (intergenicLoop_beside start «end» pad hpad genes start (Int.le_refl _) hsorted a hm).2 g hg
+  have hb := (intergenicLoop_beside start «end» pad hpad (sortGenes genes) start (Int.le_refl _)
+    (sortGenes_sorted genes) a hm).2 g ((mem_sortGenes genes g).2 hg)
   apply overlap_of_beside g pad x y hpad
   rcases hb with hb | hb
   · exact Or.inl (by omega)
   · exact Or.inr (by omega)
 
 /-! ### the record's genes -/
-
-/-- no gene of the record runs over the origin (introns and several exons are fine) -/
-def AllLinear (genes : List Lookup.Gene) : Prop := ∀ g ∈ genes, bridgesOrigin g.loc = false
-
-theorem sortedByStart_of_sorted (gs : List Lookup.Gene) (hs : Lookup.Sorted gs) (hsimple : AllLinear gs) :
-    sortedByStart (gs.map geneOf) := by
-  induction gs with
-  | nil => exact trivial
-  | cons g gs ih =>
-    rw [Lookup.Sorted, List.pairwise_cons] at hs
-    refine ⟨?_, ih hs.2 (fun x hx => hsimple x (List.mem_cons_of_mem _ hx))⟩
-    intro h hh
-    obtain ⟨x, hx, rfl⟩ := List.mem_map.1 hh
-    have hlt := hs.1 x hx
-    rw [Lookup.locLt_false_iff] at hlt
-    have e1 : Lookup.cmpStart g.loc = g.loc.start := Lookup.cmpStart_linear (hsimple g List.mem_cons_self)
-    have e2 : Lookup.cmpStart x.loc = x.loc.start := Lookup.cmpStart_linear (hsimple x (List.mem_cons_of_mem _ hx))
-    simp only [geneOf]
-    omega
 
 theorem within_simple_filter (genes : List Lookup.Gene) (hs : Lookup.Sorted genes) (hok : Lookup.GenesOK genes)
     (p : Part) (h0 : 0 ≤ p.lo) (h1 : p.lo < p.hi) :
@@ -103,26 +85,23 @@ theorem within_simple_filter (genes : List Lookup.Gene) (hs : Lookup.Sorted gene
 /-- one part of the search: the genes come from the record's lookup for `[st, en)`; any stretch
     inside a returned area shares at most `pad` bases with every gene of the record -/
 theorem part_search_overlap (genes : List Lookup.Gene) (hs : Lookup.Sorted genes) (hok : Lookup.GenesOK genes)
-    (hsimple : AllLinear genes) (st en minLen pad : Int) (strand : Strand) (hpad : 0 ≤ pad)
+    (st en minLen pad : Int) (strand : Strand) (hpad : 0 ≤ pad)
     (h0 : 0 ≤ st) (h1 : st < en) (a : Int × Int)
     (ha : a ∈ findIntergenic st en ((Lookup.within genes (.simple ⟨st, en, strand⟩) true).map geneOf) minLen pad)
     (x y : Int) (hx : a.1 ≤ x) (hy : y ≤ a.2) (g : Lookup.Gene) (hg : g ∈ genes)
     (gp : Part) (hgp : gp ∈ g.loc.parts) :
     exonOverlap gp x y ≤ pad := by
   rw [within_simple_filter genes hs hok ⟨st, en, strand⟩ h0 h1] at ha
-  have hsub : (genes.filter fun g => Lookup.specKeeps true g.loc (.simple ⟨st, en, strand⟩)).Sublist genes :=
-    List.filter_sublist
-  have hsorted := sortedByStart_of_sorted _ (hs.sublist hsub) (fun x hx => hsimple x (hsub.subset hx))
   have hne : gp.lo < gp.hi := ((hok g hg).2.1 gp hgp).2
   by_cases hk : Lookup.specKeeps true g.loc (.simple ⟨st, en, strand⟩) = true
-  · have := findIntergenic_overlap st en minLen pad _ hpad hsorted a ha (geneOf g)
+  · have := findIntergenic_overlap st en minLen pad _ hpad a ha (geneOf g)
       (List.mem_map.2 ⟨g, List.mem_filter.2 ⟨hg, hk⟩, rfl⟩) x y hx hy
     have hull := start_le_part g.loc gp hgp
     simp only [overlapSize, geneOf] at this
     simp only [exonOverlap]
     omega
   · -- the lookup leaves `g` out: it shares no base with `[st, en)`, and the area lies inside
-    obtain ⟨s1, s2, _, _⟩ := findIntergenic_sound st en minLen pad _ hpad hsorted a ha
+    obtain ⟨s1, s2, _, _⟩ := findIntergenic_sound st en minLen pad _ hpad a ha
     have hdis : gp.hi ≤ st ∨ en ≤ gp.lo := by
       by_cases hd : gp.hi ≤ st ∨ en ≤ gp.lo
       · exact hd
@@ -154,7 +133,7 @@ theorem parts_in_area_nonneg (L : Int) (a : Int × Int) (l : Loc) (ha : 0 ≤ a.
 /-- whole-record search and search of a single-stretch area: no ORF found shares more than `pad`
     bases with any gene of the record -/
 theorem findAllOrfsRec_overlap_linear (rec : Seq) (genes : List Lookup.Gene) (hs : Lookup.Sorted genes)
-    (hok : Lookup.GenesOK genes) (hsimple : AllLinear genes) (area : Option Part) (minLen pad : Int)
+    (hok : Lookup.GenesOK genes) (area : Option Part) (minLen pad : Int)
     (hL : 0 < rec.length) (hpad : 0 ≤ pad) (hmin : 0 ≤ minLen)
     (harea : ∀ p, area = some p → 0 ≤ p.lo ∧ p.lo < p.hi ∧ p.hi ≤ rec.length)
     (locs : List Loc) (h : findAllOrfsRec rec genes (area.map Loc.simple) minLen pad = some locs) :
@@ -166,14 +145,13 @@ theorem findAllOrfsRec_overlap_linear (rec : Seq) (genes : List Lookup.Gene) (hs
   cases area with
   | none =>
     simp only [findAllOrfsRec, recordParts, Option.map_none, findAllOrfs, orfAreas, Option.bind_some] at h
-    have hsorted := sortedByStart_of_sorted genes hs hsimple
-    have hsound := fun a ha => findIntergenic_sound 0 rec.length minLen pad (genes.map geneOf) hpad hsorted a ha
+    have hsound := fun a ha => findIntergenic_sound 0 rec.length minLen pad (genes.map geneOf) hpad a ha
     obtain ⟨a, ha, hin⟩ := scanAreas_in_areas rec minLen hL _ locs (fun a ha => by
       obtain ⟨h1, h2, h3, _⟩ := hsound a ha
       exact ⟨by omega, by omega, by omega, by omega⟩) h l hl
     obtain ⟨h1, _, _, _⟩ := hsound a ha
     obtain ⟨b1, b2⟩ := parts_in_area_nonneg _ a l h1 hin q hq
-    have := findIntergenic_overlap 0 rec.length minLen pad _ hpad hsorted a ha (geneOf g0)
+    have := findIntergenic_overlap 0 rec.length minLen pad _ hpad a ha (geneOf g0)
       (List.mem_map.2 ⟨g0, hg0, rfl⟩) q.lo q.hi b1 b2
     have hull := start_le_part g0.loc gp hgp
     simp only [overlapSize, geneOf] at this
@@ -184,11 +162,8 @@ theorem findAllOrfsRec_overlap_linear (rec : Seq) (genes : List Lookup.Gene) (hs
     have hnc : Lookup.crosses (Loc.simple p) = false := rfl
     simp only [findAllOrfsRec, recordParts, Option.map_some, hnc, Bool.false_eq_true, if_false, findAllOrfs,
       orfAreas, Option.bind_some, Loc.start, Loc.end] at h
-    have hsorted : sortedByStart ((Lookup.within genes (.simple p) true).map geneOf) := by
-      rw [within_simple_filter genes hs hok p p0 p1]
-      exact sortedByStart_of_sorted _ (hs.sublist List.filter_sublist)
-        (fun x hx => hsimple x (List.filter_sublist.subset hx))
-    have hsound := fun a ha => findIntergenic_sound p.lo p.hi minLen pad _ hpad hsorted a ha
+    have hsound := fun a ha => findIntergenic_sound p.lo p.hi minLen pad
+      ((Lookup.within genes (.simple p) true).map geneOf) hpad a ha
     obtain ⟨a, ha, hin⟩ := scanAreas_in_areas rec minLen hL _ locs (fun a ha => by
       obtain ⟨h1, h2, h3, _⟩ := hsound a ha
       exact ⟨by omega, by omega, by omega, by omega⟩) h l hl
@@ -196,12 +171,12 @@ theorem findAllOrfsRec_overlap_linear (rec : Seq) (genes : List Lookup.Gene) (hs
     obtain ⟨b1, b2⟩ := parts_in_area_nonneg _ a l (by omega) hin q hq
     have hp : p = ⟨p.lo, p.hi, p.strand⟩ := rfl
     rw [hp] at ha
-    exact part_search_overlap genes hs hok hsimple p.lo p.hi minLen pad p.strand hpad p0 p1 a ha
+    exact part_search_overlap genes hs hok p.lo p.hi minLen pad p.strand hpad p0 p1 a ha
       q.lo q.hi b1 b2 g0 hg0 gp hgp
 
 /-- origin-crossing area `join{[a, L), [0, b)}` (`0 < b ≤ a < L`): the same -/
 theorem findAllOrfsRec_overlap_crossing (rec : Seq) (genes : List Lookup.Gene) (hs : Lookup.Sorted genes)
-    (hok : Lookup.GenesOK genes) (hsimple : AllLinear genes) (a b : Int) (s1 s2 : Strand) (minLen pad : Int)
+    (hok : Lookup.GenesOK genes) (a b : Int) (s1 s2 : Strand) (minLen pad : Int)
     (hpad : 0 ≤ pad) (hmin : 0 ≤ minLen) (hb : 0 < b) (hba : b ≤ a) (haL : a < rec.length)
     (hcross : Lookup.crosses (.compound [⟨a, rec.length, s1⟩, ⟨0, b, s2⟩]) = true)
     (locs : List Loc)
@@ -217,27 +192,19 @@ theorem findAllOrfsRec_overlap_crossing (rec : Seq) (genes : List Lookup.Gene) (
   | some areas =>
     rw [hareas] at h
     simp only [Option.bind_some] at h
-    have hsorted1 : sortedByStart W1 := by
-      rw [← hW1, within_simple_filter genes hs hok ⟨a, rec.length, s1⟩ (by simp only; omega) (by simp only; omega)]
-      exact sortedByStart_of_sorted _ (hs.sublist List.filter_sublist)
-        (fun x hx => hsimple x (List.filter_sublist.subset hx))
-    have hsorted2 : sortedByStart W2 := by
-      rw [← hW2, within_simple_filter genes hs hok ⟨0, b, s2⟩ (by simp only; omega) (by simp only; omega)]
-      exact sortedByStart_of_sorted _ (hs.sublist List.filter_sublist)
-        (fun x hx => hsimple x (List.filter_sublist.subset hx))
-    have hs1 := fun x hx => findIntergenic_sound a rec.length minLen pad W1 hpad hsorted1 x hx
-    have hs2 := fun x hx => findIntergenic_sound 0 b minLen pad W2 hpad hsorted2 x hx
+    have hs1 := fun x hx => findIntergenic_sound a rec.length minLen pad W1 hpad x hx
+    have hs2 := fun x hx => findIntergenic_sound 0 b minLen pad W2 hpad x hx
     -- every stretch inside an area of one of the two parts is fine
     have piece1 : ∀ x ∈ findIntergenic a rec.length W1 minLen pad, ∀ lo hi, x.1 ≤ lo → hi ≤ x.2 →
         ∀ g ∈ genes, ∀ gp ∈ g.loc.parts, exonOverlap gp lo hi ≤ pad := by
       intro x hx lo hi h1 h2 g hg gp hgp
       rw [← hW1] at hx
-      exact part_search_overlap genes hs hok hsimple a rec.length minLen pad s1 hpad (by omega) haL x hx lo hi h1 h2 g hg gp hgp
+      exact part_search_overlap genes hs hok a rec.length minLen pad s1 hpad (by omega) haL x hx lo hi h1 h2 g hg gp hgp
     have piece2 : ∀ x ∈ findIntergenic 0 b W2 minLen pad, ∀ lo hi, x.1 ≤ lo → hi ≤ x.2 →
         ∀ g ∈ genes, ∀ gp ∈ g.loc.parts, exonOverlap gp lo hi ≤ pad := by
       intro x hx lo hi h1 h2 g hg gp hgp
       rw [← hW2] at hx
-      exact part_search_overlap genes hs hok hsimple 0 b minLen pad s2 hpad (Int.le_refl _) hb x hx lo hi h1 h2 g hg gp hgp
+      exact part_search_overlap genes hs hok 0 b minLen pad s2 hpad (Int.le_refl _) hb x hx lo hi h1 h2 g hg gp hgp
     -- what the areas are
     have hcs := crossOrigin_sound _ rec.length minLen pad areas hareas
     have shape : ∀ x ∈ areas,
